@@ -173,7 +173,11 @@ CHECKS = {
                 "ends; driver op ev_stop, push/stop/restart cycles over directories found full) and a rename fault of "
                 "the environment (the roll fails, the write is refused, nothing grows; driver ops log_pin/log_unpin "
                 "bind-mount the current log file onto itself in the driver's private mount namespace), both explored "
-                "exhaustively, replayed, and validated on the real byte numbers.",
+                "exhaustively, replayed, and validated on the real byte numbers. A run killed inside a roll (after the "
+                "rename, before the removals are complete; real SIGKILL via strace injection at the unlink) and "
+                "restarted is part of the verdict: the count may exceed the configured one by the number of such "
+                "kills only until the next completed roll, and never after a completed roll. Rule-dump ids used by "
+                "the check are deliberately not monotone.",
         "note": "One writer per log, wall clock monotone between rolls/dumps (oldest decided by name). Kill between "
                 "system calls inside a roll is outside C19's quantifier (reported as coverage.crash_window). The "
                 "rename fault is realised as EBUSY on a bind-mounted file; needs `unshare -m` (root).",
